@@ -159,7 +159,9 @@ def run(ctx):
         "of its dependants): evaluate the cell and every dependant twice (must raise a pycel error both times, a "
         "retry on a built target with the same class and message, the failing cell always as on a fresh model), evaluate every "
         "unrelated cell (must equal a fresh compile), overwrite the failing cell with a constant and evaluate the "
-        "dependants (must equal a fresh compile with that constant), then write an upstream input; plain and "
+        "dependants (must equal a fresh compile with that constant), then (plain mode) write one or two OTHER "
+        "precedents of the dependants (inputs not above the failing cell) and write the formerly failing cell a second "
+        "time, in any order, every dependant compared with a fresh compile after each write, then write an upstream input; plain and "
         "iterative mode; distinct = distinct (workbook, failing cell, fault kind, mode)")
     nwb = ctx.n(150, 1500)
     dotted, plain = unimplemented_pool()
@@ -293,6 +295,45 @@ def run(ctx):
                     ctx.violation(dict(case, phase='repair', target=wb.nodes[target]['addr']),
                                   "after the repair a dependant differs from a fresh model with the constant",
                                   impl=r, expected=want)
+            # ---- 3b/3c. the repaired model keeps following its inputs: a write to ANOTHER precedent of the
+            #         dependants (an input that is not above the failing cell), then a second write to the
+            #         formerly failing cell - each followed by every dependant against a fresh model.  (Plain
+            #         mode: in iterative mode the repair itself does not take, C09-iterative-wip-stuck.)
+            if mode == 'plain':
+                others = [a for a in wb.inputs() if fcell not in descendants(wb, a)
+                          and wb.nodes[a]['addr'] in comp.cell_map
+                          and any(d in descendants(wb, a) for d in deps_of_f)]
+                rng.shuffle(others)
+                later = [('repair-then-other-precedent-write', a, None) for a in others[:2]]
+                later.insert(rng.randrange(len(later) + 1), ('repair-second-write', fcell, None))
+                if others and rng.random() < 0.5:
+                    later.append(('repair-then-other-precedent-write', others[0], None))
+                for phase, a, _ in later:
+                    if a == fcell:
+                        const = newv = rng.choice([x for x in (9, 0, 'fixed', 12) if x != const])
+                    else:
+                        newv = rng.choice([x for x in wbgen.CLEAN_POOL
+                                           if x != inputs[a] or type(x) is not type(inputs[a])])
+                    wcase = dict(case, phase=phase, write=[wb.nodes[a]['addr'], newv])
+                    try:
+                        comp.set_value(wb.nodes[a]['addr'], newv)
+                    except Exception as exc:      # noqa: BLE001
+                        ctx.violation(wcase, f"set_value after the repair raises {type(exc).__name__}")
+                        break
+                    if a != fcell:
+                        inputs[a] = newv
+                    for target in [fcell] + deps_of_f:
+                        try:
+                            r = canon(comp.evaluate(wb.nodes[target]['addr']))
+                        except Exception as exc:      # noqa: BLE001
+                            ctx.violation(dict(wcase, target=wb.nodes[target]['addr']),
+                                          f"after the repair and a further write a dependant raises {type(exc).__name__}")
+                            continue
+                        want = fresh(wb, inputs, target, const_cell=fcell, const=const)
+                        if r != want:
+                            ctx.violation(dict(wcase, target=wb.nodes[target]['addr']),
+                                          "after the repair and a further write a dependant differs from a fresh "
+                                          "model with the same constants", impl=r, expected=want)
             # ---- 4. … and stays repaired when an upstream input is written
             pre = [a for a in wb.inputs() if fcell in descendants(wb, a) and wb.nodes[a]['addr'] in comp.cell_map]
             if pre and deps_of_f:
@@ -407,6 +448,14 @@ def name_sweep(ctx, ExcelCompiler, dotted, plain):
         for a, v in dict(cells, B1=b1).items():
             ws[a] = v
         return ExcelCompiler(excel=owb)
+    def build_with(values):
+        owb = openpyxl.Workbook()
+        ws = owb.active
+        ws.title = wbgen.SHEET
+        for a, v in dict(cells, **values).items():
+            ws[a] = v
+        return ExcelCompiler(excel=owb)
+    later_want = {}
     want_after = {a: canon(build(7).evaluate(f'{wbgen.SHEET}!{a}')) for a in ('B1', 'C1', 'D1', 'E1')}
     for name, kind in names:
         args = rng.choice(['A1', 'A1,0,1,TRUE', 'A1:A3', 'A1:A3,2', ''])
@@ -457,6 +506,34 @@ def name_sweep(ctx, ExcelCompiler, dotted, plain):
                     ctx.violation(dict(case, phase='repair', target=f'{wbgen.SHEET}!{a}'),
                                   "after the repair a dependant differs from a fresh model with the constant",
                                   impl=r, expected=want)
+            # the repaired model keeps following its inputs: another precedent of the range reader, the formerly
+            # failing cell a second time - every cell against a fresh model  (column A may be above the failing cell:
+            # a write there is the subject of C09-repair-undone-by-upstream-write, not of this step)
+            current = {'B1': 7}
+            for phase, a, v in (('repair-then-other-precedent-write', 'B2', 20), ('repair-second-write', 'B1', 9),
+                                ('repair-then-other-precedent-write', 'B3', 30)):
+                wcase = dict(case, phase=phase, write=[f'{wbgen.SHEET}!{a}', v])
+                current[a] = v
+                try:
+                    comp.set_value(f'{wbgen.SHEET}!{a}', v)
+                except Exception as exc:      # noqa: BLE001
+                    ctx.violation(wcase, f"set_value after the repair raises {type(exc).__name__}")
+                    break
+                key = tuple(sorted(current.items()))
+                if key not in later_want:
+                    ref_comp = build_with(current)
+                    later_want[key] = {t: canon(ref_comp.evaluate(f'{wbgen.SHEET}!{t}')) for t in ('B1', 'C1', 'D1', 'E1')}
+                for t, want in later_want[key].items():
+                    try:
+                        r = canon(comp.evaluate(f'{wbgen.SHEET}!{t}'))
+                    except Exception as exc:      # noqa: BLE001
+                        ctx.violation(dict(wcase, target=f'{wbgen.SHEET}!{t}'),
+                                      f"after the repair and a further write a dependant raises {type(exc).__name__}")
+                        continue
+                    if r != want:
+                        ctx.violation(dict(wcase, target=f'{wbgen.SHEET}!{t}'),
+                                      "after the repair and a further write a dependant differs from a fresh model "
+                                      "with the same constants", impl=r, expected=want)
 
 
 # ------------------------------------------------------------------ correspondence with coq/Model/Fail.v
